@@ -71,12 +71,12 @@ func (s *scope) resolve(n name, k kind) (fq string, special bool) {
 		return s.prefix(j), false
 	}
 	if len(n.segs) > 1 {
-		if a, ok := s.class[strings.ToLower(n.segs[0])]; ok {
+		if a, ok := s.class[asciiLower(n.segs[0])]; ok {
 			return a + "\\" + strings.Join(n.segs[1:], "\\"), false
 		}
 		return s.prefix(j), false
 	}
-	lower := strings.ToLower(j)
+	lower := asciiLower(j)
 	switch k {
 	case kClass:
 		if specialClassNames[lower] {
@@ -131,15 +131,39 @@ func (b *builder) chance(n, d int, label string) bool {
 }
 func (b *builder) intn(n int, label string) int { return rapid.IntRange(0, n-1).Draw(b.rt, label) }
 
-var segPool = []string{"Foo", "Bar", "Baz", "Qux", "Lib", "Util", "App", "Model", "Http", "Widget", "helper", "VALUE", "Impl"}
+var segPool = []string{"Foo", "Bar", "Baz", "Qux", "Lib", "Util", "App", "Model", "Http", "Widget", "helper", "VALUE", "Impl",
+	// PHP folds A-Z only when it compares class and function names: these pairs are different names.
+	// "Äbc"/"äbc" (UTF-8), Kelvin sign vs "K"/"k", Latin-1 bytes 0xC4/0xE4 (invalid UTF-8), "İx" (dotted capital I)
+	"\xc3\x84bc", "\xc3\xa4bc", "\xe2\x84\xaa", "K", "k", "\xc4x", "\xe4x", "\xc4\xb0x", "ix"}
+
+// asciiLower folds A-Z only, as PHP does (zend_str_tolower); bytes >= 0x80 are left alone.
+func asciiLower(s string) string {
+	b := []byte(s)
+	for i, c := range b {
+		if c >= 'A' && c <= 'Z' {
+			b[i] = c + 32
+		}
+	}
+	return string(b)
+}
+
+func asciiUpper(s string) string {
+	b := []byte(s)
+	for i, c := range b {
+		if c >= 'a' && c <= 'z' {
+			b[i] = c - 32
+		}
+	}
+	return string(b)
+}
 
 // vary draws a letter-case variant of a word.
 func (b *builder) vary(s string) string {
 	switch b.intn(4, "case") {
 	case 0:
-		return strings.ToUpper(s)
+		return asciiUpper(s)
 	case 1:
-		return strings.ToLower(s)
+		return asciiLower(s)
 	}
 	return s
 }
@@ -189,6 +213,18 @@ func (b *builder) drawName(k kind, allowSpecial bool) name {
 		b.feats["ref:alias"]++
 		b.used[fmt.Sprint(k)+a] = true
 		return name{"plain", []string{written}}
+	case choice == 7 && len(aliases) > 0:
+		// near miss: an imported alias written with its non-ASCII letters in the other case is a
+		// different name (PHP folds A-Z only), so it is not the alias
+		a := aliases[b.intn(len(aliases), "alias")]
+		if t := nonASCIITwin(a); t != a {
+			b.feats["ref:non-ascii-near-miss"]++
+			return name{"plain", []string{b.vary(t)}}
+		}
+	case choice == 8 && allowSpecial && k == kClass && b.chance(1, 2, "specialnearmiss"):
+		// "İnt" (dotted capital I) is an ordinary class name, not the type int
+		b.feats["ref:special-near-miss"]++
+		return name{"plain", []string{b.pick("nearspecial", "\xc4\xb0nt", "str\xc4\xb0ng", "vo\xc4\xb0d", "\xc4\xb0terable", "\xc5\xbfelf", "boo\xc5\x81")}}
 	case choice == 6:
 		// qualified name whose first segment may be a class alias (of any letter case)
 		var cl []string
@@ -206,6 +242,26 @@ func (b *builder) drawName(k kind, allowSpecial bool) name {
 	}
 	b.feats["ref:unqualified"]++
 	return name{"plain", b.segs(1, 1)}
+}
+
+// nonASCIITwin swaps the letter case of the non-ASCII letters the pool uses.
+func nonASCIITwin(s string) string {
+	pairs := [][2]string{{"\xc3\x84", "\xc3\xa4"}, {"\xe2\x84\xaa", "k"}, {"\xc4\xb0", "i"}, {"\xc4", "\xe4"}}
+	for _, p := range pairs {
+		if strings.Contains(s, p[0]) {
+			return strings.Replace(s, p[0], p[1], 1)
+		}
+		if p[1] != "k" && p[1] != "i" && strings.Contains(s, p[1]) {
+			return strings.Replace(s, p[1], p[0], 1)
+		}
+	}
+	if s == "k" {
+		return "\xe2\x84\xaa"
+	}
+	if s == "ix" {
+		return "\xc4\xb0x"
+	}
+	return s
 }
 
 func sortStrings(s []string) {
